@@ -235,17 +235,17 @@ fn run(r: &mut Run) -> Result<(), MachineryError> {
     let adv = [L, SP, HY, NL, CR, W, CM, EM, ESC, LBR, RBR, BSL, BEL, LM, NB, ZW, SHY, HASH, TAB];
     let core = [L, SP, NL, CR, W, ESC, LBR, HASH];
     let lines = [L, SP, NL, CR, W, E2, HASH, TAB, NB, SHY];
-    wrap_totality(r, "C04/wrap-adversarial-19", &adv, t.pick(2, 3))?;
-    wrap_totality(r, "C04/wrap-core-8", &core, t.pick(4, 5))?;
+    wrap_totality(r, "C04/wrap-adversarial-19", &adv, t.pick(3, 4))?;
+    wrap_totality(r, "C04/wrap-core-8", &core, t.pick(4, 6))?;
     cheap_totality(r, "C04/cheap-adversarial-19", &adv, t.pick(4, 5))?;
-    cheap_totality(r, "C04/cheap-line-structure-10", &lines, t.pick(5, 6))?;
+    cheap_totality(r, "C04/cheap-line-structure-10", &lines, t.pick(5, 7))?;
     // margins made of multi-byte whitespace and characters sharing its UTF-8 lead byte (dedent / indent / unfill)
-    cheap_totality(r, "C04/cheap-margins-7", &[SP, TAB, NB, L, NL, SHY, CR], t.pick(6, 8))?;
+    cheap_totality(r, "C04/cheap-margins-7", &[SP, TAB, NB, L, NL, SHY, CR], t.pick(7, 9))?;
     nonfinite(r, t.pick(2, 3))?;
     #[cfg(feature = "full")]
     {
         usize_valued(r, t.pick(2, 3))?;
-        penalties_through_wrap(r, t.pick(2, 3))?;
+        penalties_through_wrap(r, t.pick(2, 4))?;
     }
     Ok(())
 }
